@@ -7,7 +7,7 @@ from .. import kernelspec
 from ..dataflow import flow_of
 from ..model import AnalysisError, FuncInfo, Program, body_walk, calls_in_body, dotted, norm, parent
 from ..poly import Poly, PolyEnv
-from ..report import Result
+from ..report import Result, depends
 from ..streamops import KMOD, StreamOp
 
 TITLE = "Streaming reductions are independent of gulp size and equal their definitions"
@@ -22,7 +22,8 @@ EXPLANATION = (
     "kernel's maxdelay is that skipback; (R3) buffers that a kernel updates with += start from np.zeros and the bandpass "
     "divisor is the running sum of yielded counts; (R4) the kernels extract_tim, extract_bpass, dedisperse and the online "
     "moment kernels equal their reference definitions on the time-major layout modulo renaming and polynomial normal form; "
-    "(R5) kernel dimension parameters receive (header.nchans, yielded count, this block). Together these make the result "
+    "(R5) kernel dimension parameters receive (header.nchans, yielded count, this block); (R6) the read plan these loops consume "
+    "satisfies C01's rules (re-evaluated here, including the multi-file stream rules of C02). Together these make the result "
     "a function of the range only, not of the gulp. Not decided: float32 summation values and the read_plan integer lattice."
 )
 BASE = "sigpyproc.base"
@@ -155,6 +156,9 @@ def run(prog: Program, res: Result, tier: str) -> None:
     check_push_data(prog, res, "R5")
     res.assumptions += ["read_plan delivers the selected range exactly once in blocks of at most gulp samples (C01)",
                         "sample values are integer-valued so that float32 sums are exact (property's own quantifier)"]
+    # ---- R6 the plan the reductions consume (shared with C01) ----------------------------------------------------
+    depends(res, "R6", prog, tier, "C01", why="the blocks these loops consume come from read_plan: the plan rules of C01 (and, through them, the multi-file stream rules of C02) are re-evaluated here")
+    res.floor("R6", 40)
     res.floor("R1", 5)
     res.floor("R2", 3)
     res.floor("R3", 3)
@@ -294,6 +298,9 @@ B = "sigpyproc/base.py"
 K = "sigpyproc/core/kernels.py"
 S = "sigpyproc/core/stats.py"
 MUTANTS = [
+    {"id": "c06-bpass-local-accumulator-overwrites", "file": K, "expect": "C06.R4",
+     "old": "    for ichan in prange(nchans):\n        for isamp in range(nsamps):\n            outarray[ichan] += inarray[nchans * isamp + ichan]",
+     "new": "    for ichan in prange(nchans):\n        chan_sum = 0.0\n        for isamp in range(nsamps):\n            chan_sum += inarray[nchans * isamp + ichan]\n        outarray[ichan] = chan_sum"},
     {"id": "c06-dedisp-offset-gulp", "file": B, "expect": "C06.R2",
      "old": "                nsamps_r,\n                ii * (gulp - max_delay),\n            )\n        return TimeSeries(", "new": "                nsamps_r,\n                ii * gulp,\n            )\n        return TimeSeries("},
     {"id": "c06-dedisp-empty", "file": B, "expect": "C06.R3",
@@ -338,6 +345,9 @@ MUTANTS += [
      "new": "        tim_len = (self.header.nsamples - start) if nsamps is None else nsamps + 1\n        tim_ar = np.zeros(tim_len, dtype=np.float32)"},
 ]
 TWINS = [
+    {"id": "c06-twin-bpass-local-accumulator", "file": K,
+     "old": "    for ichan in prange(nchans):\n        for isamp in range(nsamps):\n            outarray[ichan] += inarray[nchans * isamp + ichan]",
+     "new": "    for ichan in prange(nchans):\n        chan_sum = 0.0\n        for isamp in range(nsamps):\n            chan_sum += inarray[nchans * isamp + ichan]\n        outarray[ichan] += chan_sum"},
     {"id": "c06-twin-offset-temp", "file": B,
      "old": "            kernels.extract_tim(data, tim_ar, self.header.nchans, nsamps_r, ii * gulp)",
      "new": "            offset = gulp * ii\n            kernels.extract_tim(data, tim_ar, self.header.nchans, nsamps_r, offset)"},
